@@ -100,7 +100,7 @@ def funcs(ctx, module=None, stubs=None):
                 return orders.make_func(fi.node, fn)
         return None
     fn.update({'__name__': name_of, '__resolve__': resolve, '__globals__': {},
-               'floor': math.floor, 'ceil': math.ceil, 'sqrt': math.sqrt, 'fabs': abs, 'trunc': math.trunc, 'round': round,
+               'floor': math.floor, 'ceil': math.ceil, 'sqrt': math.sqrt, 'fabs': math.fabs, 'trunc': math.trunc, 'round': round,
                'isnan': lambda v: isinstance(v, float) and v != v, 'print': lambda *a, **k: None})
     for nm_ in dir(math):
         if not nm_.startswith('_') and callable(getattr(math, nm_)):
